@@ -114,6 +114,27 @@ def run(rep, tier, rng):
         rep.count(f"coerce_len{min(len(tup), 5)}")
         rep.count("coerce_" + o_py[0])
 
+    # ---- equality and hash of a vocabulary type do not depend on the vocabulary's current contents -----------
+    import numpy as np
+    import nengo_spa as spa
+    from nengo_spa.types import TVocabulary
+    for strict in (True, False):
+        vg = spa.Vocabulary(16, strict=strict, pointer_gen=np.random.RandomState(5))
+        t_before = TVocabulary(vg)
+        h_before = hash(t_before)
+        table = {t_before: "found"}
+        for step, nm in enumerate(["A", "B", "Cc"]):
+            vg.populate(nm)
+            t_after = TVocabulary(vg)
+            rep.case(("hash-after-growth", strict, step))
+            rep.count("hash_after_growth")
+            ok_h = c.outcome(lambda: (t_after == t_before, hash(t_after) == h_before, table.get(t_after)))
+            if ok_h[0] != "ok" or ok_h[1] != (True, True, "found"):
+                rep.violation(f"the type of a vocabulary changes its equality / hash when the vocabulary grows: (equal, same hash, dict lookup) = {ok_h[1]}",
+                              {"case": {"strict": strict, "keys_added": step + 1},
+                               "python": "import nengo_spa as spa\nfrom nengo_spa.types import TVocabulary\nv = spa.Vocabulary(16)\nt = TVocabulary(v); h = hash(t); d = {t: 1}\n"
+                                         "v.populate('A')\nassert TVocabulary(v) == t and hash(TVocabulary(v)) == h and TVocabulary(v) in d\n"})
+
     verdicts = c.coq_eval("C11", "cases", "Model.Types Tie.C11Tie", exprs, shard=1500)
     rep.exhaustive = True
     for ok, m in zip(verdicts, meta):
